@@ -42,6 +42,7 @@ EXTRA_THEOREMS = {
             ('Xdoc.C14.intervalStarts_decreasing', 'full'), ('Xdoc.C14.hackComments_fuel_free', 'full'),
             ('Xdoc.C14.lexGoF_eq', 'full'), ('Xdoc.C14.isBalanced_fuel_free', 'full'), ('Xdoc.C14.labelLines_length', 'full')],
 }
+EXTRA_THEOREMS['C02'] = [('Xdoc.C02.verdictOf_ok_iff', 'full'), ('Xdoc.C02.want_ok_iff_old_code_fails', 'witness')]
 EXTRA_THEOREMS['C07'] = [('Xdoc.Google.dedentLines_margin', 'full'), ('Xdoc.Google.prepLines_margin', 'full'),
                          ('Xdoc.Google.prepLines_margin_old_padding_fails', 'witness'), ('Xdoc.Google.prepLines_margin_tab_witness', 'witness'),
                          ('Xdoc.Static.packageModpaths_nodup', 'full'), ('Xdoc.Static.walkSubs_nodup', 'full'),
@@ -78,6 +79,10 @@ def _replay_K_C08_d(ctx, finding):
 EXTRA_FINDING_REPLAYS = {'K-C08-c': _replay_K_C08_c, 'K-C08-d': _replay_K_C08_d}
 
 EXTRA_TEXT = {
+    'C02': (" CHANGED in the third session: `want_ok_iff` is now proved WITHOUT the hypothesis 'the value's repr does not raise'. The hypothesis had been forced by the proof; the "
+            "excluded point was a false fail of the real code (a want equal to earlier output + this part's output failed when the final expression also returned a value whose repr "
+            "raises: `DoctestPart.check` let the repr error leave its candidate loop). Repaired in /repo by ab6e73c, the model follows (`checkTrailing`), the old search is kept as "
+            "`checkTrailingOld` with the kernel-evaluated witness `want_ok_iff_old_code_fails`."),
     'C07': (" ADDED (Proofs/GoogleMargin.lean, after repair 6117f16): `dedentLines_margin` (textwrap.dedent removes exactly the common margin: the margin it computes is the greatest "
             "common prefix of the leading blank/tab strings) and `prepLines_margin` — for a docstring that starts on the line of its quotes and whose other lines carry ANY margin of blanks "
             "and tabs, the lines the Google block splitter works on are the first line plus the other lines without the margin; with the padding the code used before the repair the "
